@@ -16,14 +16,15 @@ type Op struct {
 
 // WriterSpec is one writer instance: configuration and call history.
 type WriterSpec struct {
-	Shape string `json:"shape"`
-	Page  int    `json:"page"`
-	Codec string `json:"codec"`
-	Ops   []Op   `json:"ops"`
-	Large bool   `json:"-"` // drawn from the large class (informative, not part of the case)
-	Many  bool   `json:"-"` // drawn from the many-row-groups class
-	Huge  bool   `json:"-"` // drawn from the huge-value class
-	Edge  bool   `json:"-"` // a quarter of its scalars are edge values
+	Shape    string `json:"shape"`
+	Page     int    `json:"page"`
+	Codec    string `json:"codec"`
+	Ops      []Op   `json:"ops"`
+	Large    bool   `json:"-"` // drawn from the large class (informative, not part of the case)
+	Many     bool   `json:"-"` // drawn from the many-row-groups class
+	Huge     bool   `json:"-"` // drawn from the huge-value class
+	Edge     bool   `json:"-"` // a quarter of its scalars are edge values
+	Boundary bool   `json:"-"` // drawn from the boundary class
 }
 
 // TaskSpec is one instance of a C13 run.
